@@ -689,7 +689,8 @@ class SendWorld:
             mid = base - 1 + rng.choice([0, 0, 0, 0, -1, -2, 1, 2] if self.adversarial else [0, 0, 0, 0, 0, -1, 1])
             mid = max(mid, -1)
         new = (not c['heard']) if rng.random() < 0.9 else rng.random() < 0.5
-        q = dict(cid=c['cid'], uid=c['uid'], mid=mid, eph=c['eph'], new=new if kind == 'req' else False,
+        # as the real consumer writes them: frame requests carry 'eph' / 'new', out-of-band and CLOSE messages carry neither
+        q = dict(cid=c['cid'], uid=c['uid'], mid=mid, eph=c['eph'] if kind == 'req' else 0, new=new if kind == 'req' else False,
                  pay=77 if kind == 'oob' else None, out=c['out'])
         if kind == 'close':
             c['heard'] = False
